@@ -676,7 +676,8 @@ def LATE_UNITS():
     # "for every model ... equal the integral of x^n times the model's density": also for a model whose parameters were
     # reassigned and re-initialised (calibration): every derived attribute the density / closed forms read is then the one a
     # directly constructed object has (C20's synchronisation lemma)
-    return [c01.TruncatedInterval(), c01.TruncatedIntegrate(), c01.TruncatedDensity(), c20.Synchronisation()]
+    # ... and a model truncated TWICE integrates over the intersection of both intervals (c01.ModelTruncateMass)
+    return [c01.TruncatedInterval(), c01.TruncatedIntegrate(), c01.TruncatedDensity(), c01.ModelTruncateMass(), c20.Synchronisation()]
 
 
 ASSUMPTIONS = ["A1: floats are mathematical reals", "A6: fundamental theorem of calculus (an antiderivative with the right base value is the integral)",
